@@ -498,6 +498,27 @@ def c05_arms_compare(ir, mr):
     return len(oi) == len(o1) == len(o2) and all(x in (y, z) for x, y, z in zip(oi, o1, o2))
 
 
+
+# kind "pipeline_retry" (oracle only, harness/cmd/implrun/c05d.go): the reused connection dies after the server read
+#   the query; the transport's retry on a fresh connection must come back with the CALLER's id and its own answer
+def c05_retry_gen(rng, tier):
+    out = []
+    for i in range(budget(tier, 24, 400)):
+        q0 = 0 if rng.random() < 0.6 else rng.randrange(1, 60000)
+        r = rng.random()
+        cid = rng.randrange(256, 65536) if r < 0.8 else rng.choice([65535, 0x0100, 0x8000, 12345])
+        out.append("rt%d net=%s q0=%d warm=%d cid=%d seed=%d" % (
+            i, rng.choice(["tcp", "udp"]), q0, rng.choice([1, 1, 2, 3, 7, 20]), cid, rng.randrange(1 << 30)))
+    return out
+
+
+def c05_retry_oracle(line, res):
+    r = gens.fields(res)
+    if "viol" in r and r["viol"] != "none":
+        return "retry on a fresh connection: " + r["viol"]
+    return None
+
+
 PROPS["C05"] = dict(
     kinds=[
         dict(name="pipeline", gen=c05_pipeline_gen, oracle=c05_pipeline_oracle, classify=c05_pipeline_classify,
@@ -506,6 +527,9 @@ PROPS["C05"] = dict(
              classify=lambda l, r: gens.fields(l).get("net", "?") + ("+reply-arm" if gens.fields(r).get("o", "").split(",")[-1][:1]
                                                                   in ("M", "B") else "+conn-arm"),
              nontrivial=lambda l, r: r.startswith("o="), timeout=900),
+        dict(name="pipeline_retry", gen=c05_retry_gen, oracle=c05_retry_oracle, model=False,
+             classify=lambda l, r: gens.fields(l).get("net", "?") + ("+retried" if "retried=1" in r else ""),
+             nontrivial=lambda l, r: "retried=1" in r and "viol=none" in r, timeout=600),
         dict(name="pipeline_eol", gen=c05_eol_gen, oracle=c05_eol_oracle,
              classify=lambda l, r: gens.fields(l).get("net", "?") + ("+retired" if "retired=1" in r else ""),
              nontrivial=lambda l, r: "retired=1" in r, timeout=900),
@@ -524,7 +548,10 @@ PROPS["C05"] = dict(
          "from VERIF_SEED, half over net.Pipe with TCP framing, half over a loopback UDP pair, first wire id 0 or "
          "preset near 65535 through the verif hook; replayed on the real PipelineTransport and through "
          "Pipeline.run_history; distinct = distinct case line; non-trivial = at least one exchange returned a "
-         "message; plus histories with write failures interleaved with live exchanges (a Write held inside "
+         "message; pipeline_arms: a Write that returns late, the reply delivered, the connection closed, then the select with "
+         "both arms ready, compared with both model outcomes (pl_arms_outcomes); pipeline_retry: the reused connection "
+         "dies after the server read the query, the retry on a fresh connection must return the caller's id; "
+         "plus histories with write failures interleaved with live exchanges (a Write held inside "
          "net.Conn.Write while later exchanges take ids, then failing: oversized query = the kernel's EMSGSIZE on the "
          "real datagram socket, scripted EMSGSIZE / other errors on both transports; wire ids of ALL Write calls "
          "recorded, failed ones included). pipeline_eol: >65536 sequential exchanges on one real connection. pipeline_burst: "
